@@ -498,6 +498,23 @@ type outcome struct {
 	lines      []string
 }
 
+// effFloor is the instance count below which a rule is considered to have
+// lost its subject. The count confirmed on the pinned tree is the reference;
+// a harmless edit may merge two instances into one (two sites served by one
+// statement), so counts of three or more tolerate the loss of a quarter (at
+// least one). What must exist in a particular number is stated by the rules
+// as obligations of their own, not through the floor.
+func effFloor(n int) int {
+	if n < 3 {
+		return n
+	}
+	slack := n / 4
+	if slack < 1 {
+		slack = 1
+	}
+	return n - slack
+}
+
 // finish matches obligations against floors and known findings, writes the
 // evidence file and replay files, prints the verdict lines.
 func finish(verifDir, prop, tier string, seed int, reps []*Report, extra map[string]interface{}, start time.Time) int {
@@ -519,6 +536,7 @@ func finish(verifDir, prop, tier string, seed int, reps []*Report, extra map[str
 		perRule[o.Rule]++
 	}
 	for rule, floor := range floors[prop] {
+		floor = effFloor(floor)
 		if perRule[rule] < floor {
 			primary.cur = rule
 			primary.add(Undecided, "floor", "instance-count floor", fmt.Sprintf("rule matched %d constructs, fewer than the %d confirmed by hand on the pinned tree: anchors were renamed/removed or the rule went vacuous", perRule[rule], floor), nil, nil)
